@@ -157,9 +157,19 @@ def _merge(packs):
 def _worker_entry(args):
     modname, task = args
     try:
+        import faulthandler
+        import signal
+        faulthandler.register(signal.SIGUSR1, all_threads=True)   # kill -USR1 <pid> dumps the stack
+        # whole-task guard: a runaway worker dumps its stack and dies (=> exit 2, harness error),
+        # it is never reported as a violation
+        limit = int(os.environ.get("VERIF_DEBUG_HANG") or (14400 if task.get("_tier") == "thorough" else 1500))
+        faulthandler.dump_traceback_later(limit, exit=True)
         import importlib
         mod = importlib.import_module(modname)
-        res = mod.run_task(task)
+        try:
+            res = mod.run_task(task)
+        finally:
+            faulthandler.cancel_dump_traceback_later()
         return ("ok", res.pack())
     except BaseException:  # noqa: harness failure, never a violation
         return ("err", traceback.format_exc())
@@ -267,6 +277,9 @@ def run_check(mod, tier, seed, replay_path=None):
                 n_viol_lines += 1
 
     tasks = mod.plan(tier, seed)
+    for t in tasks:
+        if isinstance(t, dict):
+            t.setdefault("_tier", tier)
     modname = mod.__name__
     packs = []
     errors = []
